@@ -1,6 +1,6 @@
 (* C36 — proofs over Model/C36.v *)
 From Coq Require Import ZArith List Bool Lia ZifyBool.
-From PV Require Import Bytes C39 C39_proofs C35 C36.
+From PV Require Import Bytes C39 C39_proofs C35_gen C35 C36_gen C36.
 Import ListNotations.
 Open Scope Z_scope.
 
@@ -44,7 +44,7 @@ Lemma coord_spec c v :
 Proof.
   intros [H0 H1]. unfold coord.
   destruct (deflate_unsigned v H0) as (Hb & Hd & Hl). cbv zeta in *.
-  assert (Hk : (1 <= klen c)%nat) by (unfold klen; destruct (c =? 0); [lia|destruct (c =? 1); lia]).
+  assert (Hk : (1 <= klen c)%nat) by (unfold klen, gen_curve_klen_0, gen_curve_klen_1, gen_curve_klen_2; destruct (c =? 0); [lia|destruct (c =? 1); lia]).
   specialize (Hl (klen c) H1 Hk).
   set (d := deflate_long v false) in *.
   split; [rewrite bytes_ok_app, Hb, bytes_ok_repeat; reflexivity|].
